@@ -201,7 +201,7 @@ def _align_along_axis(xyz, axis, phi, theta):
         xyz = rot_xyz_around_axis(
             xyz, np.array([0, 0, 1]), np.pi/2 - phi)
         xyz = rot_xyz_around_axis(
-            xyz, np.array([0, 1, 0]), np.pi/2 - theta)
+            xyz, np.array([1, 0, 0]), theta - np.pi/2)
 
     elif axis == 'z':
         xyz = rot_xyz_around_axis(xyz, np.array([0, 0, 1]), -phi)
